@@ -158,6 +158,16 @@ func convOutcome(a argVal, p string) string {
 		if a.Raw && p == "dec" {
 			return "either" // a plain Go int element handed to a *decimal.Big parameter: conversion not promised
 		}
+		if bits := map[string]uint{"int8": 7, "int16": 15, "int32": 31, "int64": 63, "int": 63}[p]; bits > 0 {
+			// a whole part outside the parameter type's range: what arrives then is not promised
+			if r, ok := new(big.Rat).SetString(a.Num); ok {
+				w := new(big.Int).Quo(r.Num(), r.Denom()) // truncates toward zero
+				lim := new(big.Int).Lsh(big.NewInt(1), bits)
+				if w.CmpAbs(lim) >= 0 {
+					return "either"
+				}
+			}
+		}
 		switch p {
 		case "int", "int8", "int16", "int32", "int64", "float32", "float64", "string", "any", "dec":
 			return "ok"
@@ -545,6 +555,8 @@ var c11Params = []string{"string", "bool", "int", "int8", "int16", "int32", "int
 var c11Args = []argVal{
 	aNull, aTrue, {Text: "false", Kind: "bool"},
 	aNum("3", "3"), aNum("0", "0"), aNum("(-2)", "-2"), aNum("2.7", "27/10"), aNum("(-2.7)", "-27/10"), aNum("0.5", "1/2"), aNum("100", "100"), aNum("(1+1)", "2"), aNum("0.1", "1/10"), aNum("(-0.9)", "-9/10"), aNum("127", "127"),
+	// more digits than a binary double or a 16-digit decimal context holds
+	aNum("1234567890123456789", "1234567890123456789"), aNum("12345678901234567.891", "12345678901234567891/1000"), aNum("0.12345678901234567891", "12345678901234567891/100000000000000000000"),
 	aNum("3.0", "3"), aNum("30e-1", "3"), aNum("(1.5 * 2)", "3"), aNum("(-2.70)", "-27/10"), aNum("1e2", "100"), aNum("(0 * -1)", "0"),
 	aStr("s"), aStr(""), aStr("12"), aStr("2024-01-02T03:04:05Z"), aStr("1e3"), aStr("null"),
 	aArr(), aArr(aNum("1", "1"), aNum("2", "2")), aArr(aStr("a"), aStr("b")), aArr(aNum("1", "1"), aStr("a")), aArr(aArr(aNum("1", "1"))), aArr(aNum("2.7", "27/10"), aNum("(-2.7)", "-27/10")), aArr(aNull),
